@@ -213,6 +213,11 @@ def run_core(prop, tier, seed, t0, cfgname='TraceCore.cfg'):
         if isinstance(ms, str):
             print('CHECK-ERROR property=%s matcher slice: %s' % (prop, ms[:1500])); return 2
         out_lines += ms[0]; nviol += len(ms[0]); mslice_cov = ms[1]
+    if prop in ('C15', 'C17'):
+        ps = print_slice(prop, work)
+        if isinstance(ps, str):
+            print('CHECK-ERROR property=%s printing slice: %s' % (prop, ps[:1500])); return 2
+        out_lines += ps[0]; nviol += len(ps[0]); mslice_cov.update(ps[1])
     # ---- C08: "for reference returns, that very object" - the reference-returning members of the C09 family
     refret_cov = {}
     if prop == 'C08':
@@ -531,21 +536,17 @@ _EMB = {-1: ('No match for call of fi with signature void(int) with.\n  param  _
         -5: ('m.fv(trompeloeil::_) with.\n  param  _1 == ', _A('coll', 0, '', [_I(7), _I(8)]), '\n'),
         -6: ('m.fp(trompeloeil::_) with.\n  param  _1 == ', _A('null'), '\n')}
 
-def run_print(prop, tier, seed, t0):
+def print_observe(tier, work):
+    """run the value printing driver and judge every record by Printing.tla; (cat, n, crash text or None, {value id: [violations]}) or error string"""
     import subprocess
-    work = os.path.join(lib.BUILD, 'work-%s-%d' % (prop, os.getpid()))
-    shutil.rmtree(work, ignore_errors=True); os.makedirs(work)
     d = lib.build_print(tier)
     raw = os.path.join(work, 'out.ndjson')
     env = dict(os.environ); env.update(lib.SAN_ENV)
     p = subprocess.run(['timeout', '900', os.path.join(d, 'drv_print'), raw], env=env, stdout=subprocess.PIPE, stderr=subprocess.STDOUT, text=True)
     cat = {c['id']: c for c in json.load(open(os.path.join(d, 'catalogue.json')))}
-    nviol, out_lines = 0, []
-    rp = os.path.join(lib.BUILD, 'replay'); os.makedirs(rp, exist_ok=True)
+    crash = None
     if p.returncode != 0:
-        path = os.path.join(rp, 'C18-crash.txt')
-        open(path, 'w').write('print driver failed rc=%d (null dereference / sanitizer report while printing?)\n%s\n' % (p.returncode, p.stdout[-4000:]))
-        out_lines.append('VIOLATION property=C18 replay=%s' % path); nviol += 1
+        crash = 'print driver failed rc=%d (null dereference / sanitizer report while printing?)\n%s\n' % (p.returncode, p.stdout[-4000:])
     norm = os.path.join(work, 'norm.ndjson')
     n = 0
     with open(norm, 'w') as g:
@@ -567,10 +568,46 @@ def run_print(prop, tier, seed, t0):
                                         out=x['out'], bytes=x['bytes'])) + '\n')
     r = lib.validate_generic('TracePrinting.tla', 'TracePrinting.cfg', norm, work, 'v')
     if 'error' in r:
-        print('CHECK-ERROR property=C18 %s' % r['error'][:2000]); return 2
+        return r['error']
     by_id = {}
     for v in r['viol']:
         by_id.setdefault(v['id'], []).append(v)
+    return cat, n, crash, by_id
+
+def print_slice(prop, work):
+    """C15 / C17: reports and trace records print every actual argument - the value catalogue is judged in those checks too"""
+    w = os.path.join(work, 'pslice'); os.makedirs(w, exist_ok=True)
+    try:
+        res = print_observe('quick', w)
+    except lib.BuildError as e:
+        return 'value printing driver does not build: %s' % str(e)[:1500]
+    if isinstance(res, str):
+        return res
+    cat, n, crash, by_id = res
+    rp = os.path.join(lib.BUILD, 'replay'); os.makedirs(rp, exist_ok=True)
+    out = []
+    if crash:
+        path = os.path.join(rp, '%s-printing-crash.txt' % prop); open(path, 'w').write(crash)
+        out.append('VIOLATION property=%s replay=%s' % (prop, path))
+    for vid, vs in list(by_id.items())[:3]:
+        path = os.path.join(rp, '%s-printed-value%d.txt' % (prop, vid))
+        open(path, 'w').write('an argument value as a report / trace record prints it: %s\nmismatches against spec/Printing.tla:\n%s\n' % (
+            json.dumps(cat.get(vid, {'cpp': 'embedded in report/trace %d' % vid})), '\n'.join(json.dumps(v) for v in vs)))
+        out.append('VIOLATION property=%s replay=%s' % (prop, path))
+    return out, dict(printed_values=dict(values=len(cat), events=n, rule='the C18 quick value catalogue (direct, through std::cref / std::ref, embedded in real reports and trace records) judged by Printing!Render'))
+
+def run_print(prop, tier, seed, t0):
+    work = os.path.join(lib.BUILD, 'work-%s-%d' % (prop, os.getpid()))
+    shutil.rmtree(work, ignore_errors=True); os.makedirs(work)
+    nviol, out_lines = 0, []
+    rp = os.path.join(lib.BUILD, 'replay'); os.makedirs(rp, exist_ok=True)
+    res = print_observe(tier, work)
+    if isinstance(res, str):
+        print('CHECK-ERROR property=C18 %s' % res[:2000]); return 2
+    cat, n, crash, by_id = res
+    if crash:
+        path = os.path.join(rp, 'C18-crash.txt'); open(path, 'w').write(crash)
+        out_lines.append('VIOLATION property=C18 replay=%s' % path); nviol += 1
     for vid, vs in list(by_id.items())[:10]:
         path = os.path.join(rp, 'C18-value%d.txt' % vid)
         open(path, 'w').write('value: %s\nmismatches against spec/Printing.tla:\n%s\n' % (
